@@ -460,18 +460,52 @@ func c05(run *ev.Run, tier string) {
 
 	// part 3: generated larger lists through nfpm.PrepareForPackager
 	n3 := ncases(150, 3000, tier)
-	var big int64
+	var big, sharedPlans int64
 	parallel(n3, 8, func(i int) {
 		root := newWorkDir("c05g")
 		defer removeWorkDir(root)
 		o := gen.DefaultOpts()
 		o.NEntries = [2]int{4, 14}
+		o.Overrides = i%2 == 1
 		c, err := gen.New(uint64(run.Seed), i, root, o)
 		if err != nil {
 			run.Inconclusive(err.Error())
 			return
 		}
 		y := c.Spec.YAML()
+		firstOf := map[string]string{}
+		defer func() {
+			// the plan of a format does not depend on which settings were obtained
+			// from the same parsed configuration before (library use: one parse,
+			// Get per format; formats with an override block first)
+			if i%2 != 1 || len(firstOf) != len(formats) {
+				return
+			}
+			cfg, err := parseYAML(y, nil)
+			if err != nil {
+				return
+			}
+			k := (i / 2) % len(formats)
+			order := append(append([]string{}, formats[k:]...), formats[:k]...)
+			sort.SliceStable(order, func(a, b int) bool {
+				return c.Spec.Overrides[order[a]] != nil && c.Spec.Overrides[order[b]] == nil
+			})
+			for pos, f := range order {
+				info, err := infoFor(&cfg, f)
+				if err != nil {
+					run.Inconclusive(err.Error())
+					return
+				}
+				atomic.AddInt64(&sharedPlans, 1)
+				if err := nfpm.PrepareForPackager(info, f); err != nil {
+					run.Violate("C05/plan-depends-on-settings-obtained-before/rejected", map[string]any{"case": i, "format": f, "obtained_before": order[:pos], "error": err.Error()})
+					continue
+				}
+				if ps := planString(info.Contents); ps != firstOf[f] {
+					run.Violate("C05/plan-depends-on-settings-obtained-before", map[string]any{"case": i, "format": f, "obtained_before": order[:pos], "plan": ev.Short(ps, 400), "fresh_parse_plan": ev.Short(firstOf[f], 400)})
+				}
+			}
+		}()
 		for _, f := range formats {
 			var first string
 			for rep := 0; rep < 25; rep++ {
@@ -492,6 +526,7 @@ func c05(run *ev.Run, tier string) {
 				ps := planString(info.Contents)
 				if rep == 0 {
 					first = ps
+					firstOf[f] = ps
 					atomic.AddInt64(&big, 1)
 					run.Case("generated|"+c.Fingerprint()+"|"+f, len(info.Contents) >= 6)
 					for _, pr := range planInvariants(info.Contents) {
@@ -554,6 +589,7 @@ func c05(run *ev.Run, tier string) {
 		}
 	})
 	run.Set("generated_lists_prepared", big)
+	run.Set("plans_from_one_parsed_configuration_compared", sharedPlans)
 	run.Set("total_wall_s", int(time.Since(t0).Seconds()))
 	sort.Strings(spellings)
 }
